@@ -11,7 +11,7 @@ BOUNDS = {"all": "(a) alias tables over 3 (quick) / 4 (thorough) names whose tar
                  "every table incl. chains, cycles and dangling names; re-declaration with same/other target; (b) a corpus of 9 definition "
                  "texts (structs, unions, anonymous members, typedef struct with several names and pointer names, enums, flags, bit-fields, "
                  "#define, typedef chains, self reference): every single insertion of a trivia atom (space, tab, newline, CRLF, block "
-                 "comment, multi-line block comment, line comment) at every token boundary outside array brackets and #define lines, pairs "
+                 "comment, multi-line block comment, line comment; plus ten tricky comment forms such as '/**/', '/*/ x /*/', '// /* not a block', comments containing ; { } and quotes, at every 6th boundary in the quick tier) at every token boundary outside array brackets and #define lines, pairs "
                  "of insertions sampled by VERIF_SEED (thorough), and texts that end right after a comment (no final newline), and every dependency-respecting order of the top-level definitions "
                  "(<= 24 orders per text); loaded types compared by name table, constants, layout signature and by parse/dump of symbolic "
                  "bytes; (c) trivia characters as solver variables: not built (see DESIGN.md)"}
@@ -44,6 +44,7 @@ CORPUS = {
               ("test", ["A", "B", "Cc"], "struct test {\n    A a;\n    B b;\n    Cc c;\n};\n")],
 }
 ATOMS = [" ", "\t", "\n", "\r\n", "/* c */", "/* multi\n   line */", "// line comment\n", "  /**/  "]
+TRICKY = ["/**/ ", " /*/ x /*/ ", "//\n", " /* // */ ", "// /* not a block\n", " /***/ ", "\n\n", " /* ; { } */ ", "// ; }\n", " /* \"q\" */ "]
 TOKEN = re.compile(r"[A-Za-z_][A-Za-z0-9_]*|0[xX][0-9a-fA-F]+|\d+|\S")
 
 
@@ -295,6 +296,11 @@ def cases(tier, seed):
             for j, atom in enumerate(ATOMS):
                 cfg = cfgs[(i + j) % 2]
                 yield {"label": f"{cname} trivia@{off} {atom!r}", "corpus": cname, "kind": "trivia", "inserts": [[off, atom]], "cfg": cfg}
+        for i, off in enumerate(bs):
+            if tier == "quick" and i % 6 != (len(cname) % 6):
+                continue
+            for j, atom in enumerate(TRICKY):
+                yield {"label": f"{cname} trivia@{off} {atom!r}", "corpus": cname, "kind": "trivia", "inserts": [[off, atom]], "cfg": cfgs[(i + j) % 2]}
         if tier != "quick":
             for _ in range(300):
                 ins = sorted([[rng.choice(bs), rng.choice(ATOMS)] for _ in range(rng.randint(2, 4))])
